@@ -296,6 +296,13 @@ func (v *Verifier) verifyFunc(cu *FuncUnit, con *Contract) (res *FuncResult) {
 			x.ghostSorts[g.Name] = "Int"
 		}
 	}
+	// ghost variables of the other repository packages: a callee's contract may list them in its modifies clause
+	for _, g := range v.cs.Ghosts {
+		if _, have := st.ghost[g.Name]; !have && g.Pkg != cu.Pkg.PkgPath && g.Type == "int" && g.Template == "" && !strings.HasPrefix(g.Pkg, "rendered/") && !strings.HasPrefix(cu.Pkg.PkgPath, "rendered/") {
+			st.ghost[g.Name] = Val{x.ctx.Const("ghost_"+g.Name+"$0", "Int"), tInt}
+			x.ghostSorts[g.Name] = "Int"
+		}
+	}
 	x.entry = st.clone()
 	bodyPos := cu.Decl.Body.Lbrace + 1
 	env0 := &evalEnv{pkg: cu.Pkg.Types, scope: cu.Scope, pos: bodyPos, old: x.entry, spec: true, bound: map[string]Val{}}
